@@ -280,7 +280,14 @@ def _execute(case, lib, only=None):
             continue
         run.cur = c
         try:
-            if op[0] == "s":
+            if op[0] == "s" and case.get("in_except"):
+                # the caller resumes the call while it is HANDLING an unrelated exception of its own (a retry inside an
+                # `except` block): that exception is none of the context's business
+                try:
+                    raise LookupError("the caller's own, being handled")
+                except LookupError:
+                    tok = coros[c].send(None)
+            elif op[0] == "s":
                 tok = coros[c].send(None)
             else:
                 tok = coros[c].throw(run.exc(op[2], base=True))
@@ -735,6 +742,9 @@ def cases(tier, rng):
         case = sequential_case(rng) if rng.random() < 0.5 else random_case(rng)
         if case["ops"]:
             yield dict(case, kind=case["kind"] + "+direct", direct_at=rng.randrange(max(1, len(case["ops"]) // 2)))
+    for _ in range(300 if thorough else 150):
+        case = sequential_case(rng) if rng.random() < 0.5 else random_case(rng, cancel_p=0.0)
+        yield dict(case, kind=case["kind"] + "+in-except", in_except=True)
     # 2. two concurrent calls: every interleaving over a covering set of behaviours
     for gb, size in ((True, 16 if thorough else 8), (False, 10 if thorough else 6)):
         for a in covering(gb, 0, size):
